@@ -256,6 +256,19 @@ Theorem C05_example_rotation :
 Proof. exact witness_rotation_later_height. Qed.
 Print Assumptions C05_example_rotation.
 
+(** SOURCE TIE.  The model's decisions - the shortcut, marker test, file loop and reader of
+    SearchForEndHeight, OnStart's height-0 marker, catchupReplay's two searches and its class,
+    the catch-up loop of ConsensusState.OnStart, finalizeCommit's save guard and the place of
+    WriteSync(#ENDHEIGHT) between validation and ApplyBlock, updateToState's height, the index
+    arithmetic of RotateFile / the group reader / checkHeadSizeLimit, Store.Load at the HEAD height
+    and the genesis fallback, the order of ApplyBlock's writes, setHeadBeyondRoot's walk, SaveBlock's
+    contiguity test - are the expressions /verif/go2coq regenerates from the Go source on every
+    check, on the operands and calls named there (statement spelled out in SourceTie.v). *)
+From Kardia Require Import C05.SourceTie.
+Theorem C05_source_tie : C05_source_tie_statement.
+Proof. exact C05_source_tie_proof. Qed.
+Print Assumptions C05_source_tie.
+
 (** the hypotheses are satisfiable / the definitions compute: a concrete healthy recovery *)
 Theorem C05_example_replay :
   let o := recover sc_fixed TSynced (crash_img tx_none true 3 4) in
